@@ -575,7 +575,7 @@ package xpath
 //@ instance cntZero(f, p) = cnt(f, p, 0) == 0
 //@ instance cntStep(f, p, i) = i >= 1 ==> cnt(f, p, i) == cnt(f, p, i - 1) + ite(testv(f, child(p, i)), 1, 0)
 //@ func positionFunc$1
-//@   props C15 C13 C03
+//@   props C15 C13 C03 C04 C05
 //@   mode int
 //@   conforms functionQuery.Func
 //@   theory stream for C13 C03
@@ -588,7 +588,7 @@ package xpath
 //@   loop 0 invariant[counting@C03] ite(S0, kind(pos(node)) != 2 && !isroot(pos(node)) && parent(pos(node)) == parent(C0) && 1 <= idx(pos(node)) && idx(pos(node)) <= idx(C0) && count == 1 + cnt(ref(test), parent(C0), idx(C0) - 1) - cnt(ref(test), parent(C0), idx(pos(node)) - 1) && 1 <= count && count <= 1 + idx(C0) - idx(pos(node)), pos(node) == C0 && count == 1)
 //@   loop * invariant[cursor@C13] cur(t) == old(cur(t)) && pos(cur(t)) == old(pos(cur(t)))
 //@ func lastFunc$1
-//@   props C15 C13 C03
+//@   props C15 C13 C03 C04 C05
 //@   mode int
 //@   conforms functionQuery.Func
 //@   theory stream for C13 C03
@@ -607,20 +607,20 @@ package xpath
 //@   ensures[nonnil@C15] result != nil
 //@   requires[nonnil-args@C15] elemsNonNil(args)
 //@ func concatFunc$1
-//@   props C15 C13 C09
+//@   props C15 C13 C09 C04 C05
 //@   conforms functionQuery.Func
 //@   captures elemsNonNil(args)
 //@   theory stream for C13 C09
 //@   uses one-document
 //@   loop * invariant[cursor@C13] cur(t) == old(cur(t)) && pos(cur(t)) == old(pos(cur(t)))
 //@ func (*builder).processFunction$1
-//@   props C15 C13
+//@   props C15 C13 C04 C05
 //@   conforms functionQuery.Func
 //@   theory stream for C13
 //@   uses one-document
 //@   loop * invariant[cursor@C13] cur(t) == old(cur(t)) && pos(cur(t)) == old(pos(cur(t)))
 //@ func reverseFunc
-//@   props C15 C13 C12
+//@   props C15 C13 C12 C04 C05
 //@   mode int
 //@   conforms transformFunctionQuery.Func
 //@   theory stream for C13 C12
